@@ -34,7 +34,7 @@ pub fn generate(prop: &str, seed: u64, idx: u64, tier: Tier) -> Plan {
     k.insert("max_burst".into(), *r.pick(&[0, 0, 1, 2, 4, 16]) as i64);
     k.insert("max_cwnd".into(), *r.pick(&[16 * 1024, 64 * 1024, 256 * 1024, 1024 * 1024]) as i64);
     k.insert("max_buffered".into(), *r.pick(&[64 * 1024, 256 * 1024, 1024 * 1024]) as i64);
-    let small_window = prop == "C13" && r.chance(60);
+    let small_window = (prop == "C13" && r.chance(60)) || (prop != "C13" && r.chance(20));
     k.insert("rwnd".into(), if small_window { *r.pick(&[4096, 8192, 16384, 65536]) } else { *r.pick(&[32 * 1024, 128 * 1024, 1024 * 1024]) } as i64);
     if r.chance(30) {
         // put the association close to the 2^32 TSN wrap
@@ -130,8 +130,21 @@ pub fn generate(prop: &str, seed: u64, idx: u64, tier: Tier) -> Plan {
             p.faults.push(Rule { from: "A".into(), class: "SCTP:DATA".into(), ordinal: r.below(3) as u32, action: Action::Delay { ms: r.range(1500, 6000) } });
             p.heal_at_ms = p.heal_at_ms.max(last + 7000);
         }
-    } else if r.chance(10) {
-        p.knobs.insert("quiet_s".into(), 20);
+    } else {
+        if r.chance(10) {
+            p.knobs.insert("quiet_s".into(), 20);
+        }
+        if small_window && p.heal_at_ms > 0 && r.chance(60) {
+            // closed-window episodes: hold an early DATA back so the receiver's window fills, and lose some of
+            // the SACKs that would reopen it
+            let from = if r.chance(50) { "A" } else { "B" };
+            let peer = if from == "A" { "B" } else { "A" };
+            p.faults.push(Rule { from: from.into(), class: "SCTP:DATA".into(), ordinal: r.below(4) as u32, action: Action::Delay { ms: r.range(800, 5000) } });
+            for _ in 0..r.below(4) {
+                p.faults.push(Rule { from: peer.into(), class: "SCTP:SACK".into(), ordinal: r.range(1, 30) as u32, action: Action::Drop });
+            }
+            p.heal_at_ms = p.heal_at_ms.max(last + 6000);
+        }
     }
     p
 }
